@@ -189,6 +189,11 @@ theorem varpaths_exact (g : Graph) (cfg : VarCfg) (flt : Flt) (s t : Nat) (ps : 
     ∀ p, p ∈ ps ↔ VarPathOk g cfg flt s t p :=
   Neumann.Paths.varpaths_exact g cfg flt s t ps h
 
+/-- non-vacuity: two matches 1 ⇝ 3 within 1..2 hops; undirected triangle with cycles allowed -/
+example : (findVariablePaths exGraph ⟨1, 2, .out, none, false⟩ Flt.all 1 3).toOption
+    = some [⟨[1, 3], [12]⟩, ⟨[1, 2, 3], [10, 11]⟩] := by decide
+example : ((findVariablePaths exTri ⟨0, 3, .both, none, true⟩ Flt.all 1 1).toOption.map List.length) = some 5 := by decide
+
 theorem varpaths_error_iff (g : Graph) (cfg : VarCfg) (flt : Flt) (s t : Nat) :
     (∃ e, findVariablePaths g cfg flt s t = .error e) ↔ (g.hasNode s = false ∨ g.hasNode t = false) :=
   Neumann.Paths.varpaths_error_iff g cfg flt s t
